@@ -79,8 +79,7 @@ RemoveKey == \E i \in 1..Len(coll) :
          /\ dirty' = TRUE /\ obs' = <<"len", Len(coll')>>
          /\ UNCHANGED <<obj, other, sortBy, rev, cache>>
 (* replace(dict): the new content are the members of `other` *)
-Replace ==
-         /\ Len(other) > 0
+Replace ==                                   \* `other` may be empty: replace({}) empties the collection (seeded change C19c)
          /\ Step("replace", IdsOf(other))
          /\ coll' = IF ReplaceOverwrites
                     THEN LET RECURSIVE F(_, _)
